@@ -10,6 +10,7 @@ package main
 //               a state where the current token is already the first token of a fresh line
 
 import (
+	"os"
 	"fmt"
 	"go/ast"
 	"go/constant"
@@ -114,6 +115,8 @@ func pClone(in []*pState) []*pState {
 }
 
 type parseInterp struct {
+	callPos []string
+	nBlank int
 	curField string // name of the parser field that holds the current token (role: the Token-typed field)
 	kindEnv  []map[types.Object][]int
 	// kinds of call arguments that depend on the path (a local kind variable): set while the call is
@@ -206,6 +209,7 @@ func ruleParser(c *Ctx) {
 	pi.block(top.Body.List, []*pState{{T: pi.allKinds, ls: true}}, fr)
 	c.census("P-PROGRESS", "token loops interpreted", len(pi.nLoops), 6)
 	c.census("P-RESYNC", "calls of the recovery routine interpreted (over calling contexts)", pi.nSkips, 8)
+	c.census("P-BLANK", "token fetches interpreted (states, over calling contexts)", pi.nBlank, 20)
 	// P-CARRY: the dispatcher loop carries nothing from one entry to the next but the parser and the journal under
 	// construction: no scalar loop-carried local (an index of "the transaction that is still open", a flag set by
 	// the previous entry) - what an entry is parsed into depends on the entry's own lines only
@@ -470,6 +474,12 @@ func (pi *parseInterp) kindOf(e ast.Expr) (int, bool) {
 		// a parameter (or loop variable) bound to a token kind by the call being interpreted
 		if ks, ok := pi.boundKinds(pi.info.Uses[id]); ok && len(ks) == 1 {
 			return ks[0], true
+		}
+	}
+	// an integer constant compared with a kind variable (`closing != 0`): the kind with that value
+	if tv, ok := pi.info.Types[ast.Unparen(e)]; ok && tv.Value != nil {
+		if v, exact := constant.Int64Val(constant.ToInt(tv.Value)); exact && v >= 0 && v < 63 && pi.allKinds&(1<<uint(v)) != 0 {
+			return int(v), true
 		}
 	}
 	return 0, false
@@ -896,7 +906,13 @@ func (pi *parseInterp) stmt(st ast.Stmt, in []*pState, fr *pFrame) pFlow {
 		fl.next = pi.expr(s.X, in, fr)
 	case *ast.AssignStmt:
 		if pi.isTokenFetch(s) {
+			pi.checkBlankLine(in, fr, s)
 			fl.next = pi.advance(in)
+			if os.Getenv("HLDBG_BLANK") != "" && len(pi.callPos) > 0 && strings.Contains(strings.Join(pi.stack, ">"), "parseTransaction") {
+				for _, st := range fl.next {
+					fmt.Fprintf(os.Stderr, "FETCH at %v ctx=%s -> ls=%v fresh=%v\n", pi.callPos, strings.Join(pi.stack, ">"), st.ls, st.fresh)
+				}
+			}
 			return fl
 		}
 		cur := in
@@ -991,7 +1007,32 @@ func (pi *parseInterp) stmt(st ast.Stmt, in []*pState, fr *pFrame) pFlow {
 			}
 		}
 		fl.next = cur
-	case *ast.DeclStmt, *ast.EmptyStmt, *ast.IncDecStmt:
+	case *ast.DeclStmt:
+		// `var closing TokenType`: the zero value is the kind with value 0
+		cur := in
+		if gd, ok := s.Decl.(*ast.GenDecl); ok {
+			for _, sp := range gd.Specs {
+				vs, ok := sp.(*ast.ValueSpec)
+				if !ok || len(vs.Values) != 0 {
+					continue
+				}
+				for _, nm := range vs.Names {
+					o := pi.info.Defs[nm]
+					if o == nil || !strings.HasSuffix(types.TypeString(o.Type(), nil), "parser.TokenType") || pi.allKinds&1 == 0 {
+						continue
+					}
+					cur = pClone(cur)
+					for _, st := range cur {
+						if st.loc == nil {
+							st.loc = map[locK]int{}
+						}
+						st.loc[locK{o, ""}] = 0
+					}
+				}
+			}
+		}
+		fl.next = cur
+	case *ast.EmptyStmt, *ast.IncDecStmt:
 		fl.next = in
 	case *ast.IfStmt:
 		cur := in
@@ -1335,6 +1376,8 @@ func (pi *parseInterp) call(m string, call *ast.CallExpr, in []*pState, fr *pFra
 		}
 	}
 	pi.stack = append(pi.stack, m)
+	pi.callPos = append(pi.callPos, pi.c.P.pos(call.Pos()))
+	defer func() { pi.callPos = pi.callPos[:len(pi.callPos)-1] }()
 	pi.kindEnv = append(pi.kindEnv, pi.bindKinds(fd, call))
 	sub := &pFrame{fd: fd}
 	fl := pi.block(fd.Body.List, pClone(in), sub)
@@ -1573,4 +1616,36 @@ func (pi *parseInterp) kindTable(e ast.Expr) ([]kindRow, bool) {
 		rows = append(rows, row)
 	}
 	return rows, len(rows) > 0
+}
+
+// checkBlankLine (P-BLANK): a line break that is the first token of its line - a blank line - is consumed by the
+// line-level dispatcher only.  Inside an entry (something was consumed since the dispatcher took the line) a blank
+// line ends the entry; an entry parser that consumes it goes on reading the indented lines behind it as if they
+// belonged to the entry (after a recovery routine has already consumed the damaged line's own line break, a
+// following `if current is a line break { advance }` eats the blank line).
+func (pi *parseInterp) checkBlankLine(in []*pState, fr *pFrame, at ast.Node) {
+	nl, hasNL := pi.kinds["TokenNewline"]
+	if !hasNL || pi.quiet {
+		return
+	}
+	bit := kset(1) << uint(nl)
+	// inside a recovery routine the rule is P-RESYNC's (the routine is judged at its call)
+	for _, name := range pi.stack {
+		if pi.skipFns[name] {
+			return
+		}
+	}
+	ctx := strings.Join(pi.stack, ">")
+	desc := "token fetch in context " + ctx
+	for _, s := range in {
+		pi.nBlank++
+		if s.ls && !s.fresh && s.T&bit != 0 {
+			if os.Getenv("HLDBG_BLANK") != "" {
+				fmt.Fprintf(os.Stderr, "P-BLANK ctx=%s T=%s callpos=%v\n", ctx, pi.kindNames(s.T), pi.callPos)
+			}
+			pi.findOnce("P-BLANK", fr, desc, at.Pos(), "an entry parser can consume a line break that is the first token of its line (a blank line) after it has already consumed the line break of the line before: the blank line that ends the entry is swallowed, and indented lines that follow it are read as part of this entry instead of being reported on their own")
+		} else {
+			pi.okOnce("P-BLANK", fr, desc, at.Pos(), "no blank line is consumed inside an entry on this path")
+		}
+	}
 }
